@@ -24,6 +24,9 @@ TARGETS_SUPPORTED = [
     ("W.lst[W.i0]", 0),
     ("W.get(1)[0]", 0),
     ("W.get(W.i0)[1]", 0),
+    ("W.get2(W.i0, 1)[0]", 0),
+    ("W.ns.b.get3(0, W.i0, W.key)[1]", 0),
+    ("W.get2(W.key, W.i0)[W.i0]", 0),
     ("(x{n}, y{n})", 1),
     ("[x{n}]", 2),
     ("(x{n}, *y{n}, z{n})", 3),
